@@ -371,6 +371,18 @@ func (ex *Exec) coerce(st *State, v Val, from, to types.Type) Val {
 	if to == nil || from == nil {
 		return v
 	}
+	if b, ok := from.(*types.Basic); ok && b.Kind() == types.UntypedNil {
+		k := kindOf(to)
+		switch k.K {
+		case "slice":
+			return mkVec(k.Elem, nil)
+		case "ptr":
+			return &RefV{Nil: true}
+		case "obj":
+			return zeroVal(k)
+		}
+		return v
+	}
 	if isVariableType(to) && !isVariableType(from) {
 		sv, ok := v.(SV)
 		if !ok {
@@ -504,13 +516,13 @@ func (ex *Exec) subslice(node ast.Node, s *SliceV, lo, hi *Term) Val {
 		for j := 0; j < cnt; j++ {
 			vs[j] = s.elemAt(Add(lo, IntLit(int64(j))))
 		}
-		return &SliceV{Elem: s.Elem, Len: n, Vec: vs, IsV: true, Tag: -1}
+		return &SliceV{Elem: s.Elem, Len: n, Vec: vs, IsV: true, Tag: -1, ViewTag: s.Tag, ViewOff: lo}
 	}
 	m := s.materialize()
 	if m.Elem.K == "slice" {
 		panic(unsupported("symbolic sub-slice of nested slice"))
 	}
-	r := &SliceV{Elem: s.Elem, Len: n, Arr: Fresh("sub", m.Arr.Sort), Tag: -1}
+	r := &SliceV{Elem: s.Elem, Len: n, Arr: Fresh("sub", m.Arr.Sort), Tag: -1, ViewTag: s.Tag, ViewOff: lo}
 	k := Var(fmt.Sprintf("k!q%d", nextQ()), SInt)
 	def := Eq(Select(r.Arr, k), Ite(And(Le(Zero, k), Lt(k, n)), Select(m.Arr, Add(k, lo)), zeroTerm(s.Elem)))
 	st.assume(Quant("forall", []*Term{k}, def, []*Term{Select(r.Arr, k)}))
@@ -812,6 +824,21 @@ func (ex *Exec) evalCall(st *State, call *ast.CallExpr) Val {
 		return ex.callGadget(st, call)
 	}
 	args := ex.evalArgs(st, call, sig)
+	if recvExpr != nil {
+		// methods promoted from embedded interfaces: prefer a contract keyed by the static receiver type
+		rt := ex.info.TypeOf(recvExpr)
+		if p, ok := rt.(*types.Pointer); ok {
+			rt = p.Elem()
+		}
+		if n, ok := rt.(*types.Named); ok {
+			alt := qualName(n) + "." + f.Name()
+			if alt != key {
+				if _, ok := ex.prog.Contracts.ByKey[alt]; ok {
+					key = alt
+				}
+			}
+		}
+	}
 	if len(call.Args) > 0 {
 		// contracts specialised on the static type of the last argument: key#type
 		lt := ex.info.TypeOf(call.Args[len(call.Args)-1])
